@@ -250,6 +250,10 @@ def perm_obligations():
 def run(prop, tier, seed, known):
     results = []
     t0 = time.time()
+    if prop == 'C15':
+        # for the purity property only the initialisation obligations matter (no result depends on uninitialised memory)
+        return dict(results=[dict(kind='engine', engine='sepstruct', name='np.empty buffers', status='ok', detail='', paths=0, obligations=init_obligations(),
+                                  inlined=[], used_contracts=[], gen_time=0, wall=0, lib_used=[], props=['C15'])], bounded=[])
     obs = [o for o in bundles.arity_obligations() if 'C19' in o['props']]
     results.append(dict(kind='engine', engine='sepstruct', name='separation result arity', status='ok', detail='', paths=0, obligations=obs, inlined=[],
                         used_contracts=[], gen_time=0, wall=0, lib_used=[], props=['C19']))
